@@ -87,7 +87,7 @@ func Wrap(err error, elems ...Elem) error {
 	verifsim.RecordWrap(elems)
 	return &wrapped{err: err, elems: elems}
 }
-func Key(k any) Elem      { return Elem{Kind: "key", Value: fmt.Sprintf("%v", k)} }
+func Key(k any) Elem      { return Elem{Kind: "key", Value: fmt.Sprintf("%T(%v)", k, k)} }
 func Index(i int) Elem    { return Elem{Kind: "index", Value: fmt.Sprint(i)} }
 func Field(s string) Elem { return Elem{Kind: "field", Value: s} }
 `
